@@ -40,6 +40,8 @@ type Config struct {
 	Faults     bool   `json:"faults"`   // wrap the replica client in the fault injector
 	Full       bool   `json:"full"`     // record the full pre-state before litestream calls (Trace_CoreSync.tla)
 	RestoreEach bool  `json:"restoreEach"` // restore the latest state after every litestream/replica step (C05-C07)
+	ReqCtx     bool   `json:"reqCtx"`   // every litestream call runs under its own context, cancelled when the call returns (as request handlers do)
+	Daemon     DaemonCfg `json:"daemon"`   // monMs > 0: daemon mode (daemon.go) - the real Store with its monitors running
 }
 
 type Case struct {
@@ -99,6 +101,8 @@ type AuditTx struct {
 	Err   string  `json:"err"`
 	State DBState `json:"state"`
 	App   int     `json:"app"`
+	Integ string  `json:"integ"` // PRAGMA integrity_check of the restored database
+	Sig   string  `json:"sig"`   // debugging aid (VERIF_ROWSIG): id:crc of every row of t
 }
 
 type Runner struct {
@@ -134,7 +138,12 @@ type Runner struct {
 	Hooks   func(r *Runner, ls *litestream.DB) // optional: lets a driver configure a freshly created litestream.DB
 }
 
-var discard = slog.New(slog.NewTextHandler(io.Discard, nil))
+var discard = func() *slog.Logger {
+	if os.Getenv("VERIF_LS_LOG") != "" { // debugging aid: litestream's own log on stderr
+		return slog.New(slog.NewTextHandler(os.Stderr, &slog.HandlerOptions{Level: slog.LevelDebug}))
+	}
+	return slog.New(slog.NewTextHandler(io.Discard, nil))
+}()
 
 func (r *Runner) payload(n int) []byte {
 	r.wcount++
@@ -300,6 +309,14 @@ func argStr(st []any, k int, def string) string {
 func (r *Runner) Step(st []any, noLS bool) (res string, ack bool) {
 	op := argStr(st, 0, "")
 	ctx := r.ctx
+	if r.c.Cfg.ReqCtx && (op == "LsSync" || op == "LsSyncAndWait" || op == "LsCheckpoint" || op == "LsReplicaSync" || op == "Snapshot" || op == "Compact") {
+		var cancel context.CancelFunc
+		ctx, cancel = context.WithCancel(r.ctx)
+		defer func() {
+			cancel()
+			time.Sleep(3 * time.Millisecond) // database/sql reacts to the cancellation in a goroutine of its own
+		}()
+	}
 	isLS := strings.HasPrefix(op, "Ls") || strings.HasPrefix(op, "Ck") || op == "Fault" || op == "ClearFaults" || op == "SnapRetention" ||
 		op == "L0Retention" || op == "RetByTXID" || op == "AgeFile" || op == "L0RetentionAbs" || op == "SnapRetentionAbs" || op == "RestoreCheck" || op == "AuditNow" || op == "MetaLost" || op == "Snapshot" || op == "Compact" ||
 		strings.HasPrefix(op, "Ret") || op == "ReplaceDb" || op == "SaveCopy" || op == "SaveAll" || op == "RestoreAll"
@@ -846,6 +863,9 @@ func (r *Runner) Restore(txid int, ts time.Time) Restored {
 		return out
 	}
 	out.OK, out.State, out.App, out.Seq, out.LockN, out.Integ = true, st, app, seq, lockN, integ
+	if os.Getenv("VERIF_ROWSIG") != "" {
+		out.Sig = RowSigFile(dst)
+	}
 	return out
 }
 
@@ -859,7 +879,7 @@ func (r *Runner) audit() []AuditTx {
 		}
 		seen[f[2]] = true
 		rs := r.Restore(f[2], time.Time{})
-		out = append(out, AuditTx{Lvl: f[0], TXID: f[2], OK: rs.OK, Err: rs.Err, State: rs.State, App: rs.App})
+		out = append(out, AuditTx{Lvl: f[0], TXID: f[2], OK: rs.OK, Err: rs.Err, State: rs.State, App: rs.App, Integ: rs.Integ, Sig: rs.Sig})
 	}
 	sort.Slice(out, func(i, j int) bool { return out[i].TXID < out[j].TXID })
 	return out
@@ -867,6 +887,9 @@ func (r *Runner) audit() []AuditTx {
 
 // RunCase executes one case and returns its events.
 func RunCase(c Case, baseDir string, hooks func(r *Runner, ls *litestream.DB)) (evs []Event) {
+	if c.Cfg.Daemon.MonMs > 0 {
+		return RunDaemonCase(c, baseDir, c.Cfg.Daemon)
+	}
 	// AppShrink is two application transactions (DELETE, then VACUUM / incremental_vacuum): run it as two steps so
 	// that the committed state in between is observed (it is a state litestream may legitimately replicate).
 	var sched [][]any
